@@ -112,6 +112,7 @@ def glob : String → Option Val
   | "__ptera_resume" => some (fn "__ptera_resume")
   | "__ptera_PteraNameError" => some (cls "PteraNameError")
   | "__ptera_ABSENT" => some .absent
+  | "__ptera_frame" => some (.obj "frame" [])
   | _ => none
 
 def asInt : Val → Option Int
